@@ -244,7 +244,8 @@ def run(eng, R):
         from ..termform import path_exprs, subst
 
         def closed(fn, pick):
-            return [Normalizer({}).norm(subst(e, env)).canon() for conds, e, env in path_exprs(fn.node, pick)]
+            # (a conditional expression inside the formula is one more branching: `floor(log10(r) if r else -1)`)
+            return [Normalizer({}).norm(e2).canon() for conds, e, env in path_exprs(fn.node, pick) for e2 in common.expand_ifexp(subst(e, env))]
 
         def calls_in_stmt(st, name):
             own = [st] if not hasattr(st, "body") else [x for x in (getattr(st, "test", None), getattr(st, "iter", None)) if x is not None]
@@ -265,17 +266,26 @@ def run(eng, R):
         R.ob("H-dec", "%s.__call__:value digits" % SF, digs == exp, (f.file, f.lineno),
              "significant digits of the value = decimals + floor(log10|x|) + 1, clipped at 0, independent of the digits shown for the uncertainty (found %s)" % digs)
         R_X = "abs(np.around(x, self._sig))"
-        ok = common.like_any(src, ["_l = -1", "if %s: _l = np.log10(np.abs(%s))" % (R_X, R_X), "return '%#.{significance}g'.format(significance=_d) % x"],
-                             ["_r = %s" % R_X, "_l = -1", "if _r: _l = np.log10(np.abs(_r))", "return '%#.{significance}g'.format(significance=_d) % x"])
+        # the magnitude handed to floor(), per path: log10 of the rounded value when that is non-zero, -1 otherwise; the result is the %#.<digits>g template applied to x
+        mags = set()
+        for conds, e in common.call_args_by_path(f.node, lambda c: _txt(c.func) in ("np.floor", "floor", "math.floor")):
+            rz = [pol for t, pol in conds if t == R_X]
+            mags.add((rz[0] if len(set(rz)) == 1 else None, _txt(e)))
+        rets = [e for _c, e in common.results_by_path(f.node)]
+        tmpl = all(isinstance(e, ast.BinOp) and isinstance(e.op, ast.Mod) and _txt(e.right) == "x" and isinstance(e.left, ast.Call) and _txt(e.left.func) == "'%#.{significance}g'.format"
+                   and [k.arg for k in e.left.keywords] == ["significance"] and not e.left.args for e in rets)
+        ok = mags == {(True, "np.log10(np.abs(%s))" % R_X), (False, "-1")} and bool(rets) and tmpl
         R.ob("H-dec", "%s.__call__:magnitude" % SF, ok, (f.file, f.lineno), "the magnitude must be taken from the value rounded to the decimals (9.996 -> 10.0), with a fallback for zero, and the value printed with %#.<digits>g")
         f = get_func(p, "ParameterFormatter", "get_formatted")
         src = _txt(f.node)
-        ok = src.all_like("_vf = ScalarFormatter(_me, n_significant_digits)", "_v = _vf(value)", "_e = '%#.{n}g'.format(n=n_significant_digits) % self.error") \
+        ok = (src.all_like("_vf = ScalarFormatter(_me, n_significant_digits)", "_v = _vf(value)", "_e = '%#.{n}g'.format(n=n_significant_digits) % self.error")
+              or src.all_like("_vf = ScalarFormatter(_me, n_significant_digits)", "_v = _vf(value)", "_t = '%#.{n}g'.format(n=n_significant_digits)", "_e = _t % self.error")) \
             and common.like_any(src, "_me = min(abs(self.error_up), abs(self.error_down)) if asymmetric_error else self.error", ["_me = min(abs(self.error_up), abs(self.error_down))", "_me = self.error"])
         R.ob("H-dec", "ParameterFormatter.get_formatted:rounding", ok, (f.file, f.lineno),
              "the value must be rounded by a ScalarFormatter built from the (smaller) uncertainty and n; the uncertainty printed with exactly n significant digits")
-        ok = "_err_u = val_formatter(abs(self.error_up)) _err_d = '%#.{n}g'.format(n=n_significant_digits) % abs(self.error_down)" in src \
-            and "_err_d = val_formatter(abs(self.error_down)) _err_u = '%#.{n}g'.format(n=n_significant_digits) % abs(self.error_up)" in src and "if abs(self.error_down) <= abs(self.error_up):" in src
+        # (`_vf` / `_t` are the formatter and the n-digit template bound by the rule above when they are held in locals)
+        T_ = "_t" if "_t" in src._binding else "'%#.{n}g'.format(n=n_significant_digits)"
+        ok = src.like("if abs(self.error_down) <= abs(self.error_up): _eu = _vf(abs(self.error_up)) _ed = %s %% abs(self.error_down) else: _ed = _vf(abs(self.error_down)) _eu = %s %% abs(self.error_up)" % (T_, T_))
         R.ob("H-dec", "ParameterFormatter.get_formatted:asymmetric", ok, (f.file, f.lineno), "the smaller asymmetric uncertainty gets n significant digits, the larger one the same decimals")
         f = get_func(p, "CostFunctionFormatter", "get_formatted")
         src = _txt(f.node)
